@@ -31,7 +31,7 @@ let string_of_result = function
   | RNone -> "n"
   | RValueError -> "e"
 
-let string_of_ev = function EvProgress n -> string_of_z n | EvClose -> "c"
+let string_of_ev = function EvProgress n -> string_of_z n | EvClose -> "X"
 
 let read_of_token t = if t = "N" then None else Some (zs t)
 
@@ -58,12 +58,16 @@ let () = iter_lines (fun line ->
       let ((_, rs), es) = run c (List.map op_of_token ops) in
       String.concat "," (List.map string_of_result rs) ^ " | * | " ^
       String.concat "," (List.map string_of_z (subscriber_values (thr_of thr) es))
+  | "hyp" :: f :: start :: req :: full :: en :: ops ->
+      (* decision procedure for the hypotheses of chunk_reported_checked *)
+      let c = mk_chunk (bytes_of_hex f) (zs start) (zs req) (zs full) (en = "1") in
+      if hyp_ok c (List.map op_of_token ops) then "1" else "0"
   | "reqops" :: first :: resends ->
       let a = attempt_of_token first and rs = List.map attempt_of_token resends in
       (if valid_attempt a && List.for_all valid_attempt rs then "valid " else "invalid ") ^
       String.concat " " (List.map token_of_op (body_life a rs))
   | "agg" :: thr :: evs ->
-      let es = List.map (fun t -> if t = "c" then EvClose else EvProgress (zs t)) evs in
+      let es = List.map (fun t -> if t = "X" then EvClose else EvProgress (zs t)) evs in
       let (p, out) = agg_run (thr_of thr) Z0 es in
       string_of_z p ^ " | " ^ String.concat "," (List.map string_of_z out)
   | ["copy"; n] -> String.concat "," (List.map string_of_z (copy_progress (zs n)))
